@@ -571,7 +571,11 @@ func (n *Node) GoTypeAlt() reflect.Type {
 		}
 		for i := len(n.Fields) - 1; i >= 0; i-- {
 			f := n.Fields[i]
-			fs = append(fs, reflect.StructField{Name: f.GoName, Type: f.S.GoTypeAlt(), Tag: reflect.StructTag(f.TagString())})
+			ft := f.S.GoTypeAlt()
+			if f.Alt {
+				ft = f.S.GoType()
+			}
+			fs = append(fs, reflect.StructField{Name: f.GoName, Type: ft, Tag: reflect.StructTag(f.TagString())})
 		}
 		n.rtypeAlt = reflect.StructOf(fs)
 		return n.rtypeAlt
@@ -612,7 +616,12 @@ func (n *Node) GoType() reflect.Type {
 		}
 		fs := make([]reflect.StructField, 0, len(n.Fields)+len(n.Extra))
 		for _, f := range n.Fields {
-			fs = append(fs, reflect.StructField{Name: f.GoName, Type: f.S.GoType(), Tag: reflect.StructTag(f.TagString())})
+			ft := f.S.GoType()
+			if f.Alt {
+				// this placement of a shared schema object has the OTHER destination type (same fields, other positions)
+				ft = f.S.GoTypeAlt()
+			}
+			fs = append(fs, reflect.StructField{Name: f.GoName, Type: ft, Tag: reflect.StructTag(f.TagString())})
 		}
 		for _, e := range n.Extra {
 			fs = append(fs, reflect.StructField{Name: e, Type: reflect.TypeOf(int(0))})
